@@ -490,6 +490,107 @@ def clause_d(facts, rep):
         rep.check(bad is None, 'E4.grow-contract', f.qn, 'after Grow(cnt) at least cnt bytes are free behind top_ (%d states evaluated)' % cnt_, f.loc, bad or '', facts.config)
 
 
+def clause_serializer(facts, rep, tier):
+    """the separator / bracket / pop logic of SerializeImpl: its CFG is interpreted (sv/ser_model.py) for every DOM tree
+    shape up to the stated nesting and arity bounds, for every leaf kind in every position of small containers, and for
+    the error trees (non-string key, non-finite double).  The text left in the write buffer must be exactly the
+    minified JSON text of the tree, the parent stack empty and the result 'no error' - or the matching error code."""
+    from .. import ser_model as sm
+    from ..ser_model import Node, S, link, text
+    from ..minterp import Unsupported, UndefinedBehaviour
+    import itertools
+    tags = {}
+    errs = {}
+    for en in facts.enums:
+        if en.get('qn', '').endswith('TypeFlag'):
+            for c in en.get('values', []):
+                tags[c['name']] = int(c['v'])
+        if en.get('qn', '').endswith('SonicError'):
+            for c in en.get('values', []):
+                errs[c['name']] = int(c['v'])
+        if en.get('qn', '').endswith('TypeInfo'):
+            for c in en.get('values', []):
+                if c['name'] == 'kBasicTypeMask':
+                    tags['kBasicTypeMaskValue'] = int(c['v'])
+    rep.require('kObject' in tags and 'kSerErrorInfinity' in errs and 'kSerErrorInvalidObjKey' in errs, 'C06: TypeFlag / SonicError enumerators not found')
+    fns = [f for f in facts.functions if f.short == 'SerializeImpl']
+    rep.require(len(fns) >= 1, 'C06: SerializeImpl not found')
+    leaf_kinds = [lambda: Node('uint', 7), lambda: Node('sint', -3), lambda: Node('real', '1.5'), lambda: Node('true'), lambda: Node('false'),
+                  lambda: Node('null'), lambda: S(2), lambda: S(0), lambda: Node('raw', '[1, 2]'), lambda: Node('arr'), lambda: Node('obj')]
+    for f in (fns if tier == 'thorough' else fns[:1]):
+        rep.fn(f)
+        R = sm.Run(f, facts, tags)
+        trees = []
+        U = lambda: Node('uint', 7)
+        # (1) every shape of nesting depth <= 2 with <= 2 elements / members per container over {number, string}
+        trees += [mk() for mk in sm.shapes(2, 2, [U, lambda: S(1)])]
+        # (2) nesting depth 3: <= 2 elements at the top, <= 1 below (quick) / <= 2 everywhere (thorough)
+        if tier == 'thorough':
+            trees += [mk() for mk in sm.shapes(3, 2, [U])]
+        else:
+            inner = sm.shapes(2, 1, [U])
+            for k in range(0, 3):
+                for combo in itertools.product(inner, repeat=k):
+                    trees.append(Node('arr', None, [c() for c in combo]))
+                    trees.append(Node('obj', None, [x for c in combo for x in (S(1), c())]))
+        # (3) every leaf kind as the root, in every position of arrays of 1..3 elements and objects of 1..2 members
+        trees += [mk() for mk in leaf_kinds]
+        for k in (1, 2, 3):
+            for combo in itertools.product(leaf_kinds, repeat=k):
+                trees.append(Node('arr', None, [c() for c in combo]))
+                if k <= 2:
+                    trees.append(Node('obj', None, [x for c in combo for x in (S(1), c())]))
+                    trees.append(Node('arr', None, [Node('obj', None, [x for c in combo for x in (S(1), c())]), U()]))
+        # (4) error trees: a non-string key / a non-finite double somewhere
+        badkeys = [lambda: Node('uint', 1), lambda: Node('null'), lambda: Node('arr'), lambda: Node('true')]
+        etrees = []
+        for bk in badkeys:
+            etrees.append(Node('obj', None, [bk(), U()]))
+            etrees.append(Node('obj', None, [S(1), U(), bk(), U()]))
+            etrees.append(Node('obj', None, [bk(), U(), S(1), U()]))
+            etrees.append(Node('arr', None, [U(), Node('obj', None, [S(1), Node('obj', None, [bk(), U()])])]))
+            etrees.append(Node('obj', None, [S(1), Node('arr', None, [U()]), bk(), U()]))
+        for inf in ('inf', 'nan'):
+            etrees.append(Node('real', inf))
+            etrees.append(Node('arr', None, [U(), Node('real', inf)]))
+            etrees.append(Node('obj', None, [S(1), Node('arr', None, [Node('real', inf)]), S(1), U()]))
+        bad = None
+        n = 0
+        try:
+            for t in trees:
+                link(t)
+                want = text(t)
+                try:
+                    rc, out, stk = R.serialize(t)
+                except UndefinedBehaviour as ex:
+                    bad = 'tree %s: %s' % (want, ex)
+                    break
+                n += 1
+                if rc != 0 or out.decode('latin-1') != want or stk:
+                    bad = 'tree %s: result %s, text %r%s' % (want, rc, out.decode('latin-1'), ', %d parent contexts left' % len(stk) if stk else '')
+                    break
+            if bad is None:
+                for t in etrees:
+                    link(t)
+                    kinds = sm.expect_error(t)
+                    want_rc = errs['kSerErrorInvalidObjKey'] if kinds[0] == 'key' else errs['kSerErrorInfinity']
+                    try:
+                        rc, out, stk = R.serialize(t)
+                    except UndefinedBehaviour as ex:
+                        bad = 'tree %s: %s' % (text(t), ex)
+                        break
+                    n += 1
+                    ok_rcs = set(errs['kSerErrorInvalidObjKey'] if k_ == 'key' else errs['kSerErrorInfinity'] for k_ in kinds)
+                    if rc not in ok_rcs:
+                        bad = 'tree %s (%s): result %s, expected %s' % (text(t), kinds[0], rc, sorted(ok_rcs))
+                        break
+        except Unsupported as ex:
+            raise AnalysisBroken('C06: SerializeImpl cannot be interpreted: %s' % ex)
+        rep.extra['serializer_trees_explored'] = rep.extra.get('serializer_trees_explored', 0) + n
+        rep.check(bad is None, 'E6.serializer', f.qn, 'text in the write buffer == minified JSON text of the tree, for %d tree shapes (incl. %d error trees)' % (n, len(etrees)),
+                  f.loc, bad or '', facts.config)
+
+
 def run(rep, tier):
     configs = ['K1'] if tier == 'quick' else ['K1', 'K2', 'K3']
     for cfg in configs:
@@ -499,6 +600,7 @@ def run(rep, tier):
         clause_b(facts, rep)
         clause_c(facts, rep)
         clause_d(facts, rep)
+        clause_serializer(facts, rep, tier)
         # "parses back equal" needs the number writers to print the value they were given: the structural
         # obligations of the writers (shared with C07/C08) are re-checked here
         from . import c07
@@ -531,5 +633,6 @@ def run(rep, tier):
               *['%s write contract: %s' % (k, v['why']) for k, v in WRITER_CONTRACT.items()])
     rep.assumptions += [
         'decides that every unchecked push / writer call in SerializeImpl is covered by the reservation in force on every path (loops by fixpoint), error propagation exits, Dump, ToString; plus the Schubfach interval parity and lossless-narrowing obligations of the number writers (shared with C07/C08)',
-        'does NOT decide separator/Pop logic producing well-formed text, nor round-trip equality',
+        'the separator / bracket / pop logic is decided by exhaustive interpretation of the SerializeImpl CFG over all tree shapes up to the stated bounds (nesting depth 3, arity 2-3) with the value writers replaced by their contracts; deeper / wider trees are not explored',
+        'does NOT decide round-trip equality end to end (value texts are the business of C07/C08/C09)',
     ]
